@@ -45,7 +45,8 @@ def gen_function(rng, idx):
     params = []
     for i, n in enumerate(names):
         o = orders[i] if mode == "all_ordered" or (mode == "partial" and i == 0) else None
-        params.append({"name": n, "order": o})
+        # an explicit `sh:optional false` says what its absence says (SHACL-AF 5.2.1: parameters are mandatory unless sh:optional is true)
+        params.append({"name": n, "order": o, "optfalse": rng.random() < 0.45})
     kind = rng.choice(["arith", "arith", "ask_gt", "lookup", "lookup2"]) if k >= 2 else rng.choice(["arith", "lookup", "lookup2", "ask_has"])
     f = {"node": EX["fn%d" % idx], "params": params, "kind": kind}
     return f
@@ -77,7 +78,7 @@ def function_query(f):
 
 def function_ttl(f):
     kind, q = function_query(f)
-    ps = " , ".join("[ sh:path ex:%s %s]" % (p["name"], ("; sh:order %d " % p["order"]) if p["order"] is not None else "") for p in f["params"])
+    ps = " , ".join("[ sh:path ex:%s %s%s]" % (p["name"], ("; sh:order %d " % p["order"]) if p["order"] is not None else "", "; sh:optional false " if p.get("optfalse") else "") for p in f["params"])
     return "%s a sh:SPARQLFunction ; sh:parameter %s ; sh:prefixes ex:prefixes ; sh:%s \"%s\" .\n" % (f["node"].n3(), ps, kind, q)
 
 
@@ -455,7 +456,7 @@ def main(tier, seed, replay=None):
             data.add((x, RDF.type, EX.P))
             if rng.random() < 0.75:
                 data.add((x, EX.k, rng.choice(ns_ + [Literal(7)])))     # at most one ex:k value each: one solution at most
-        f = {"node": EX["fnp%d" % j], "params": [{"name": rng.choice(["alpha", "node", "x1"]), "order": rng.choice([None, 3])}], "kind": "lookup2"}
+        f = {"node": EX["fnp%d" % j], "params": [{"name": rng.choice(["alpha", "node", "x1"]), "order": rng.choice([None, 3]), "optfalse": j % 2 == 1}], "kind": "lookup2"}
         ttl = PFX + function_ttl(f) + ("ex:S a sh:NodeShape ; sh:targetClass ex:P ; sh:rule [ a sh:TripleRule ; sh:subject sh:this ; sh:predicate ex:computed ; sh:object [ %s ( sh:this ) ] ] ;\n"
                                         " sh:sparql [ sh:prefixes ex:prefixes ; sh:select \"SELECT $this ?value WHERE { BIND (%s($this) AS ?value) FILTER (bound(?value)) }\" ] .\n" % (f["node"].n3(), f["node"].n3()))
         sg = rdflib.Graph().parse(data=ttl, format="turtle")
@@ -503,5 +504,5 @@ def main(tier, seed, replay=None):
         "exhaustive": False,
     })
     rep.coverage = cov
-    rep.assumptions = ["sh:optional parameters and JS functions are not generated; conformance to a sh:filterShape is an oracle row (computed by an independent Python predicate per filter shape)"]
+    rep.assumptions = ["parameters with sh:optional true and JS functions are not generated (an explicit `sh:optional false` is, on 45 % of the parameters); conformance to a sh:filterShape is an oracle row (computed by an independent Python predicate per filter shape)"]
     return rep.finish()
